@@ -116,6 +116,15 @@ CHECKS = {
             "my reading of llama.cpp's grammar-parser is the definition of well-formed; four malformation classes are genuine "
             "known findings with per-class signatures, anything else is a violation",
             "DESIGN.md §3 C12"),
+    "C13": ("exploration",
+            "bounded exhaustive / sampled derivation of each compiled field rule (own GBNF parser) -> OCTAVE reader -> the field's own constraint chain",
+            "For generated schemas whose chains are decided by CONST/ENUM/TYPE[BOOLEAN]/TYPE[NUMBER]/DATE/ISO8601 the compiled "
+            "grammar is parsed independently and the field rule derived (exhaustive for CONST/ENUM/BOOLEAN, NUMBER up to 3+3 "
+            "digits over 4 digit values, seeded samples plus calendar boundaries for dates; ws in {'', ' '}); every derived "
+            "line must be read as exactly one assignment of that field whose value the field's chain accepts, also through "
+            "octave_validate with the schema planted.",
+            "character classes are explored through representative characters; unbounded repetition is cut at 3",
+            "DESIGN.md §3 C13"),
 }
 
 NOT_YET = {
